@@ -98,7 +98,12 @@ def _count(V):
     V.witness(lambda ev: {"op": "count", "neighbours": nb, "neighbour_types": [ev(a_.fields["atype"]) for a_ in m.fields["_atoms"].items[1:]], "hint": ev(hint) if hinted else None, "group": ev(g), "fc": ev(fc), "spin": ev(spin),
                           "btypes": [ev(b.z) for b in bts], "expected": ev(n_spec), "signature": "hydrogen-count"})
     V.cover()
+    # the reference polyhedron is a module-level table shared by every call in the process
+    TET = V.glob("molli.math.polyhedra:TETRAHEDRON")
+    tet0 = NP._copy(TET.data)
     out = V.method(m, "add_implicit_hydrogens", [c], qual=f"{ST}.add_implicit_hydrogens")
+    V.ensure("frame/module-level-reference-tetrahedron-untouched",
+             I.and_(NP.shape_of(TET.data) == NP.shape_of(tet0), *[M._same(I, x, y) for x, y in zip(NP.flat(TET.data), NP.flat(tet0))]))
     V.ensure("post/returns", z3.BoolVal(out.returned))
     if not out.returned:
         return
